@@ -414,6 +414,9 @@ pub struct SinkCore {
     pub empty_offers: u64,
     pub allow_fatal: bool,
     pub fatal_served: Option<ErrKind>,
+    /// async only: scripted outcomes of poll_flush (Pending / Err(kind) / anything else = Ok)
+    pub flush_lane: Vec<Step>,
+    pub flush_pos: usize,
     /// expected frame layout of what is being written (set by the interpreter for probes)
     pub layout: Layout,
     pub obs: Rc<RefCell<Obs>>,
@@ -438,6 +441,8 @@ impl SinkCore {
             empty_offers: 0,
             allow_fatal: false,
             fatal_served: None,
+            flush_lane: Vec::new(),
+            flush_pos: 0,
             layout: Layout::default(),
             obs,
         }))
@@ -586,11 +591,44 @@ impl AsyncWrite for SimAsyncSink {
             }
         }
     }
-    fn poll_flush(self: Pin<&mut Self>, _: &mut Context<'_>) -> Poll<io::Result<()>> {
-        let mut c = self.0.borrow_mut();
+    fn poll_flush(self: Pin<&mut Self>, cx: &mut Context<'_>) -> Poll<io::Result<()>> {
+        let mut guard = self.0.borrow_mut();
+        let c = &mut *guard;
         c.flush_calls += 1;
-        c.obs.borrow_mut().event(ev::FLUSH, 0);
-        Poll::Ready(Ok(()))
+        c.calls += 1;
+        if c.calls > c.call_cap {
+            c.cap_hit = true;
+            return Poll::Ready(Err(io::Error::new(io::ErrorKind::Other, "minisim: call cap exceeded")));
+        }
+        let step = if c.flush_pos < c.flush_lane.len() {
+            c.flush_pos += 1;
+            c.flush_lane[c.flush_pos - 1]
+        } else {
+            Step::Xfer(1)
+        };
+        let phase = c.layout.phase(c.data.len());
+        let mut obs = c.obs.borrow_mut();
+        match step {
+            Step::Pending => {
+                obs.event(ev::FLUSH, 1);
+                obs.fault(fk::flush_pending);
+                if phase.inside() {
+                    obs.nontrivial = true
+                }
+                cx.waker().wake_by_ref();
+                Poll::Pending
+            }
+            Step::Err(k) => {
+                obs.event(ev::FLUSH, 2 + k.idx() as u64);
+                obs.fault(fk::flush_err);
+                c.served_err[k.idx()] += 1;
+                Poll::Ready(Err(io::Error::new(k.io(), "minisim: injected (flush)")))
+            }
+            _ => {
+                obs.event(ev::FLUSH, 0);
+                Poll::Ready(Ok(()))
+            }
+        }
     }
     fn poll_close(self: Pin<&mut Self>, _: &mut Context<'_>) -> Poll<io::Result<()>> {
         Poll::Ready(Ok(()))
